@@ -13,19 +13,6 @@ import (
 
 func init() {
 	verifRegister("C14_errors", verifH_C14_errors)
-	verifRegister("C16_cache", verifH_C16_cache)
-}
-
-// verifLongString returns a symbolic string of n bytes (first byte symbolic, rest 'x').
-func verifLongString(tag string, n int) string {
-	b := make([]byte, n)
-	for i := range b {
-		b[i] = 'x'
-	}
-	if n > 0 {
-		b[0] = verifU8(tag)
-	}
-	return string(b)
 }
 
 // H14: a statement that returns an error changes nothing, immediately and after a restart.
@@ -231,73 +218,3 @@ func verifH_C14_errors() {
 	verifReach("end")
 }
 
-// H16: the same history on a page cache of capacity c (symbolic, small) and on
-// the default one, with a flush after every statement: same outcomes, same contents.
-func verifH_C16_cache() {
-	sc := verifParam("prefix", 2)
-	d := verifParam("suffix", 1)
-	slen := verifParam("slen", 1)
-	kinds := verifParam("kinds", 4)
-	cmin, cmax := verifParam("cmin", 6), verifParam("cmax", 10)
-	var caps []int
-	for c := cmin; c <= cmax; c++ {
-		caps = append(caps, c)
-	}
-	small := verifIntFrom("capacity", caps)
-
-	// the statements are generated once (on a scratch model) and run twice
-	scratch := &verifDB{name: "db"}
-	for _, s := range verifPrefixStmts(sc) {
-		s.apply(scratch)
-	}
-	var stmts []verifStmt
-	gen := scratch.clone()
-	for i := 0; i < d; i++ {
-		st := verifFreeStmt(gen, fmt.Sprintf("s%d", i), slen, kinds)
-		st.apply(gen)
-		stmts = append(stmts, st)
-	}
-	type outcome struct {
-		errs  []bool
-		dirty int // most dirty pages any one statement left behind
-	}
-	run := func(capacity int, tag string) (outcome, *verifDB) {
-		rs, db := verifPrefixDB(sc, capacity, false)
-		var o outcome
-		for _, st := range stmts {
-			// the statement's dirty set at its peak (CREATE TABLE flushes by itself
-			// before it returns): counted whenever a page is marked dirty
-			storage.VerifPoint = func(ev string, off uint64) {
-				if ev == "page.dirty" {
-					if d := storage.VerifDirtyCount(rs) + 1; d > o.dirty {
-						o.dirty = d
-					}
-				}
-			}
-			err := st.run(rs)
-			storage.VerifPoint = nil
-			if d := storage.VerifDirtyCount(rs); d > o.dirty {
-				o.dirty = d
-			}
-			verifAssert(err != storage.ErrLRUCacheFull, tag+"cache-never-full-of-dirty")
-			o.errs = append(o.errs, err != nil)
-			if err == nil {
-				st.apply(db)
-			}
-			verifAssert(storage.VerifFlush(rs) == nil, tag+"flush-ok")
-			verifCheckDB(rs, db, tag)
-		}
-		storage.VerifAbandon(rs)
-		return o, db
-	}
-	oBig, _ := run(0, "default/")
-	// the property is about statements whose dirty set fits the capacity: every
-	// page a statement dirtied stays in the cache until the flush that follows
-	// it, and the statement needs one more slot for the page it reads next
-	verifAssume(oBig.dirty < small)
-	oSmall, _ := run(small, "small/")
-	for i := range oSmall.errs {
-		verifAssert(oSmall.errs[i] == oBig.errs[i], "same-outcome")
-	}
-	verifReach("end")
-}
